@@ -260,6 +260,19 @@ def tasks_for(tier, seed):
                 continue
             t.append(('naming %s port_in=%s wire=%s instance=%s port_out=%s' % ('reg' if seq else 'box', pin, wn, inn, pout), naming_task,
                       {'names': names, 'seq': seq}))
+    # every IEEE 1364-2005 keyword (E2's own table, not the generator's) as an input and as an output port name
+    for kw in sorted(elab.RESERVED):
+        for names in ((kw, 'y', 'r0', 'x'), ('x', 'y', 'r0', kw)):
+            nm = 'naming reg port_in=%s wire=%s instance=%s port_out=%s' % names
+            if not any(nm == x[0] for x in t):
+                t.append((nm, naming_task, {'names': names, 'seq': True}))
+    # one configuration per listed naming finding, so that the quick tier exercises each of them
+    for seq, names in ((True, ('x', 'y', 'r0', 'clk')), (True, ('clk', 'y', 'r0', 'x')), (True, ('module', 'y', 'r0', 'reserved_module')),
+                       (False, ('reserved_module', 'x', 'b0', 'module')), (True, ('w_y', 'y', 'r0', 'x')), (True, ('x', 'y', 'r0', 'w_y')),
+                       (True, ('i_r0', 'y', 'r0', 'x')), (True, ('x', 'y', 'r0', 'i_r0'))):
+        nm = 'naming %s port_in=%s wire=%s instance=%s port_out=%s' % (('reg' if seq else 'box',) + names)
+        if not any(nm == x[0] for x in t):
+            t.append((nm, naming_task, {'names': names, 'seq': seq}))
     # interchangeability groups
     groups = {}
     for label, mk in share_points():
@@ -284,7 +297,7 @@ def main(argv=None):
         technique='elaboration obligations on the text returned by the real generator (E2 front end) over enumerated designs and naming configurations; same-name module bodies proved equivalent by z3',
         assumptions=['demands limited to what the statement lists: declared exactly once, legal non-reserved names, module defined once, ports exist with matching direction/width, one driver of the right kind per net, defined expressions',
                      'bit-select of a scalar, unused nets and width truncation in assignments are not flagged', 'vendor primitives would be declared black boxes (none in this corpus)'],
-        bounds={'corpus': 'the C01 designs', 'naming': 'every combination of 4 user names from a pool of %d (quick: 1/6 sample over a pool of 12)' % len(POOL),
+        bounds={'corpus': 'the C01 designs', 'naming': 'every combination of 4 user names from a pool of %d (quick: 1/6 sample over a pool of 12); every IEEE 1364-2005 keyword (%d) as input and as output port name' % (len(POOL), len(elab.RESERVED)),
                 'interchangeability': 'Reg, Latch, Add, Abs, Neg, Sign, BufEnable over widths of all ports, optional ports and reset values'},
         trusted_base=['vlog front end (self-test table)', 'z3 for the body equivalence'])
 
